@@ -108,7 +108,13 @@ def observe(cls, data, pc, m, sizes, file_mode, rng, fill_seed, dst_value=None, 
             start = fp.tell()
             applicationentity.write_meta(fp, command_set, context.supported_ts)
             return fp, start
-    ctxs = {pc: asceprovider.PContextDef(pc, pyuid.UID(sop or '1.2'), pyuid.UID(IMPLICIT))}
+    # a peer may propose one storage class once per transfer syntax (storescu does): the same abstract syntax is then
+    # accepted on several contexts, and the file must announce the syntax of the context the message ARRIVED on
+    ctxs = {}
+    if fill_seed % 2 == 0:
+        for o in [o for o in (pc - 2, pc + 2) if 1 <= o <= 255 and o != pc][:1 + (fill_seed // 2) % 2]:
+            ctxs[o] = asceprovider.PContextDef(o, pyuid.UID(sop or '1.2'), pyuid.UID('1.2.840.10008.1.2.1'))
+    ctxs[pc] = asceprovider.PContextDef(pc, pyuid.UID(sop or '1.2'), pyuid.UID(IMPLICIT))
     dec = fsm.DIMSEDecoder(ctxs, store, get_file)
     flags = []
     err = None
